@@ -54,10 +54,10 @@ WatcherSlots == {"watcher_start", "watcher_restart", "watcher_reload", "watcher_
 SigKinds   == {"signal", "csignal", "oskill"}
 GateHooks  == {"before_start", "before_spawn", "after_spawn", "after_start"}
 
-NoCtx == [on |-> FALSE, cid |-> "", cmd |-> "", lname |-> "", hasname |-> FALSE, pid |-> -1, signum |-> -1,
+NoCtx == [on |-> FALSE, cid |-> "", cmd |-> "", lname |-> "", hasname |-> FALSE, pattern |-> FALSE, pid |-> -1, signum |-> -1,
           children |-> FALSE, recursive |-> FALSE, childpid |-> -1, G |-> -1, nostop |-> FALSE,
           graceful |-> TRUE, cast |-> FALSE, waiting |-> FALSE, busy |-> FALSE]
-NoOp  == [slot |-> "", cmd |-> "", lname |-> "", hasname |-> FALSE, mark |-> 0, t0 |-> 0, faulty |-> FALSE,
+NoOp  == [slot |-> "", cmd |-> "", lname |-> "", hasname |-> FALSE, pattern |-> FALSE, mark |-> 0, t0 |-> 0, faulty |-> FALSE,
           gatefail |-> {}, nostop |-> FALSE, graceful |-> TRUE]
 NoTerm == [open |-> FALSE, sig |-> 0, t0 |-> 0, G |-> 0, killed |-> FALSE, kids |-> {}]
 
@@ -79,7 +79,8 @@ GhostInit ==
     op       |-> NoOp,         \* the exclusive operation holding the slot
     reqs     |-> <<>>,         \* [cid, mid, cast, n, t0, cmd, waiting, acc]
     roPending|-> "",
-    refusing |-> FALSE, snap |-> <<>>,
+    refusing |-> FALSE, snap |-> <<>>, snapslot |-> "",
+    pendKill |-> 0,            \* pid for which a requested SIGKILL is passing the before_signal hook right now
     ctxEff   |-> FALSE,        \* the request being handled has already caused an effect (signal, spawn, event)
     ctxHard  |-> FALSE,        \* ... an effect other than an `updated` event
     multiSet |-> FALSE,        \* ... and it is a set request carrying more than one option
@@ -168,7 +169,7 @@ Upd(g, o, ln, o2) ==
       isReq  == ln.k = "req"
       isRep  == ln.k = "reply"
       ctx1   == IF isReq THEN [on |-> TRUE, cid |-> ln.x, cmd |-> ln.q.cmd, lname |-> ln.q.lname,
-                               hasname |-> ln.q.hasname, pid |-> ln.q.pid, signum |-> ln.q.signum,
+                               hasname |-> ln.q.hasname, pattern |-> ln.q.pattern, pid |-> ln.q.pid, signum |-> ln.q.signum,
                                children |-> ln.q.children, recursive |-> ln.q.recursive,
                                childpid |-> ln.q.childpid, G |-> ln.q.G, nostop |-> ln.q.nostop,
                                graceful |-> ln.q.graceful, cast |-> ln.q.cast, waiting |-> ln.q.waiting,
@@ -187,7 +188,8 @@ Upd(g, o, ln, o2) ==
       failing(h, lname, out) == h \in GateHooks /\ ~Effective(g, lname, h, out)
       op1    == IF acq THEN [slot |-> o2.slot, cmd |-> IF g.ctx.on THEN g.ctx.cmd ELSE "internal",
                              lname |-> IF g.ctx.on THEN g.ctx.lname ELSE "",
-                             hasname |-> g.ctx.on /\ g.ctx.hasname, mark |-> NK(o), t0 |-> ln.t,
+                             hasname |-> g.ctx.on /\ g.ctx.hasname, pattern |-> g.ctx.on /\ g.ctx.pattern,
+                             mark |-> NK(o), t0 |-> ln.t,
                              faulty |-> FALSE, gatefail |-> {},
                              nostop |-> g.ctx.on /\ g.ctx.nostop, graceful |-> ~g.ctx.on \/ g.ctx.graceful]
                 ELSE IF rel THEN NoOp
@@ -265,12 +267,17 @@ Upd(g, o, ln, o2) ==
                             ELSE IF isRep /\ ln.x = g.ctx.cid THEN FALSE ELSE @,
                !.ctxEff = IF isReq THEN FALSE
                           ELSE @ \/ (ln.k \in SigKinds /\ ln.r # "nsp") \/ ln.k = "spawn"
-                                 \/ (isEv /\ ln.x \notin {"hook_success", "hook_failure"}),
+                                 \/ (isEv /\ g.hookOpen = ""),        \* (hook_success / hook_failure events excepted)
                !.ctxHard = IF isReq THEN FALSE
                            ELSE @ \/ (ln.k \in SigKinds /\ ln.r # "nsp") \/ ln.k = "spawn"
-                                  \/ (isEv /\ ln.x \notin {"hook_success", "hook_failure", "updated"}),
+                                  \/ (isEv /\ g.hookOpen = "" /\ ln.x # "updated"),
                !.multiSet = IF isReq THEN (ln.q.cmd = "set" /\ ln.q.nopts > 1) ELSE @,
                !.snap = IF isReq THEN <<o2.w, o2.wl, o2.wn>> ELSE @,
+               !.snapslot = IF isReq THEN o2.slot ELSE @,
+               !.pendKill = IF ln.k = "hook" /\ ln.x = "before_signal" /\ g.ctx.on /\ g.ctx.cmd = "signal" /\ g.ctx.signum = SIGKILL
+                            THEN ln.p
+                            ELSE IF isEv /\ (ln.x = "hook_success:before_signal" \/ ln.x = "hook_failure:before_signal") THEN @
+                            ELSE 0,
                !.lastSig = lastSig1,
                !.term = term1,
                !.csigs = csigs1,
@@ -350,7 +357,7 @@ Started(o, o2) == { i \in WIdx(o2) : o2.w[i].st \in {"starting", "active"} /\
 C02_stays(g, o, ln, o2) ==
    /\ \A i \in Started(o, o2) : ~o2.w[i].od =>
         /\ o2.slot \in StartSlots
-        /\ (o2.slot \in WatcherSlots /\ g.op.hasname => g.op.lname = o2.w[i].ln)
+        /\ (o2.slot \in WatcherSlots /\ g.op.hasname /\ ~g.op.pattern => g.op.lname = o2.w[i].ln)
    /\ (ln.k = "spawn" => \A j \in WIdx(o2) : o2.w[j].ln = ln.x => o2.w[j].st # "stopped")
 
 \* ---------------- C03
@@ -453,6 +460,7 @@ C10_refuse(g, o, ln, o2) ==
       /\ ln.k \notin (SigKinds \cup {"spawn", "ev", "tick"})
       /\ (ln.k = "reply" /\ ln.x = g.ctx.cid) =>
             /\ <<o2.w, o2.wl, o2.wn>> = g.snap
+            /\ o2.slot = g.snapslot              \* ... and the operation in flight keeps the slot
             /\ \/ ln.r = "error"
                \/ (g.ctx.cmd \in {"incr", "decr"} /\ HasWL(o, g.ctx.lname) /\ WL(o, g.ctx.lname).sing)
 C10_accept(ln) == (ln.k = "reply" /\ ln.w = "xprobe") => ln.r = "ok"
@@ -478,6 +486,10 @@ C14_startgate(g, o, o2) ==
          /\ o2.w[i].st = "stopped"
          /\ \A p \in OwnedBy(g, o2, lname) : KSt(o2, p) # "run"
 C14_siggate(g, ln) == (ln.k = "signal" /\ ln.p \in g.veto) => ln.a = SIGKILL
+\* SIGKILL is always sent, whatever before_signal says
+C14_killsent(g, ln) ==
+   (g.pendKill # 0 /\ ~(ln.k = "ev" /\ (ln.x = "hook_success:before_signal" \/ ln.x = "hook_failure:before_signal")))
+     => ln.k = "signal" /\ ln.p = g.pendKill /\ ln.a = SIGKILL
 C14_events(g, ln) ==
    /\ (g.hookOpen # "" /\ ln.k # "exc") =>
          ln.k = "ev" /\ (ln.x = "hook_success:" \o g.hookOpen \/ ln.x = "hook_failure:" \o g.hookOpen)
@@ -579,7 +591,7 @@ Clauses(g, o, ln, o2, g2) ==
     C11_unchanged |-> C11_unchanged(g, ln, o2),
     C13_wid |-> C13_wid(o, o2),
     C14_startgate |-> C14_startgate(g, o, o2), C14_siggate |-> C14_siggate(g, ln),
-    C14_events |-> C14_events(g, ln),
+    C14_events |-> C14_events(g, ln), C14_killsent |-> C14_killsent(g, ln),
     C15_dir |-> C15_dir(g, o2, ln), C15_views |-> C15_views(o, ln), C15_addrm |-> C15_addrm(g, o, ln, o2),
     C18_confine |-> C18_confine(g, o, ln), C18_exact |-> C18_exact(g, ln),
     C19_order |-> C19_order(g, o, ln), C19_pace |-> C19_pace(g, o, ln), C19_auto |-> C19_auto(g, o, ln, o2) ]
